@@ -39,6 +39,8 @@ def validate(scr, fam, behs, seed, tier, props, tag):
 def check(prop, fam, tier, seed, replay=None):
     t0 = time.time()
     scr = Scratch(prop)
+    if fam.get("materialise"):
+        fam["materialise"](scr)
     try:
         return _check(prop, fam, tier, seed, replay, scr, t0)
     finally:
@@ -90,7 +92,8 @@ def _check(prop, fam, tier, seed, replay, scr, t0):
         gb = run_gen(scr, g["module"], g["cfg"], num, g["depth"], int(seed) * 7919 + len(behs))
         for ops in gb:
             n_gen += 1
-            behs.append(dict(id="g%d_%s" % (n_gen, g.get("tag", "x")), cfg=g["beh_cfg"], ops=ops))
+            cfgb = g["beh_cfg_fn"](n_gen, int(seed)) if g.get("beh_cfg_fn") else g["beh_cfg"]
+            behs.append(dict(id="g%d_%s" % (n_gen, g.get("tag", "x")), cfg=cfgb, ops=ops))
     n_extra = 0
     if fam.get("extra"):
         for b in fam["extra"](prop, tier, int(seed)):
